@@ -792,6 +792,8 @@ type sfePlanIn struct {
 	leaf      sfeLeaf
 	internal  []byte
 	merkle    []byte
+	// signers that must be used (ambiguous key set), nil = any
+	force []int
 }
 
 func sfeKey(r *Rng) *btcec.PrivateKey {
@@ -857,6 +859,10 @@ func sfePlanInput(r *Rng, tmpl int, small bool) *sfePlanIn {
 			m = 3
 		}
 	}
+	ambiguous := multisig && r.Chance(3)
+	if ambiguous {
+		n, m = 3, 2
+	}
 	pl.m = m
 	uncompressed := (tmpl == tP2PKH || tmpl == tP2SHMS) && r.Chance(12)
 	for i := 0; i < n; i++ {
@@ -867,6 +873,16 @@ func sfePlanInput(r *Rng, tmpl int, small bool) *sfePlanIn {
 		} else {
 			pl.pubs = append(pl.pubs, k.PubKey().SerializeCompressed())
 		}
+	}
+	if ambiguous && !uncompressed {
+		// key 3 ends in 0x21 and key 1 is 02 || first 32 bytes of key 3: the bytes of key 3 then
+		// occur inside <key1> <push opcode of key2>, before key 2 (bytes.Index finds them there)
+		for pl.pubs[2][32] != 0x21 {
+			pl.privs[2] = sfeKey(r)
+			pl.pubs[2] = pl.privs[2].PubKey().SerializeCompressed()
+		}
+		pl.pubs[0] = append([]byte{0x02}, pl.pubs[2][:32]...)
+		pl.force = []int{1, 2}
 	}
 	switch tmpl {
 	case tP2PKH:
@@ -996,7 +1012,30 @@ func sfeFmtOK(pk, sig []byte) bool {
 	return true
 }
 
-func sfeGenCase(r *Rng, v2 bool) *sfeCase {
+// every ordered choice of m out of n indices
+func sfeOrderedSubsets(n, m int) [][]int {
+	var res [][]int
+	var rec func(cur []int)
+	rec = func(cur []int) {
+		if len(cur) == m {
+			res = append(res, append([]int{}, cur...))
+			return
+		}
+		for j := 0; j < n; j++ {
+			used := false
+			for _, c := range cur {
+				used = used || c == j
+			}
+			if !used {
+				rec(append(cur, j))
+			}
+		}
+	}
+	rec(nil)
+	return res
+}
+
+func sfeGenCase(r *Rng, v2 bool, seqno int) *sfeCase {
 	c := &sfeCase{v2: v2}
 	nin := 1 + r.Intn(3)
 	small := r.Chance(50)
@@ -1033,7 +1072,7 @@ func sfeGenCase(r *Rng, v2 bool) *sfeCase {
 			if r.Chance(3) {
 				hash = r.Bytes(32) // wrong previous transaction
 			}
-			if r.Chance(2) {
+			if r.Chance(1) {
 				idx = uint32(len(ptx.Outputs)) + uint32(r.Intn(2)) // index out of range
 			}
 		} else {
@@ -1041,7 +1080,7 @@ func sfeGenCase(r *Rng, v2 bool) *sfeCase {
 			in.wu = &transaction.TxOutput{Asset: pl.prev.Asset, Value: pl.prev.Value, Script: pl.prev.Script, Nonce: []byte{0}}
 			hash, idx = r.Bytes(32), uint32(r.Intn(5))
 		}
-		if r.Chance(2) {
+		if r.Chance(1) {
 			in.utxoKind, in.nw, in.wu = 0, nil, nil
 		}
 		txin := transaction.NewTxInput(hash, idx)
@@ -1148,8 +1187,8 @@ func sfeGenCase(r *Rng, v2 bool) *sfeCase {
 		}
 		nsig := pl.m
 		bad := mode != 0 && r.Chance(70)
-		if bad && mode == 1 {
-			nsig = r.Intn(pl.m)
+		if bad && mode == 1 && pl.tmpl != tP2TRLEAF {
+			nsig = r.Intn(pl.m) // a tapscript input instead gets its signature for some other leaf
 		}
 		if bad && mode == 3 && len(pl.privs) > pl.m {
 			nsig = pl.m + 1
@@ -1163,6 +1202,17 @@ func sfeGenCase(r *Rng, v2 bool) *sfeCase {
 			order[j], order[q] = order[q], order[j]
 		}
 		order = order[:nsig]
+		if pl.force != nil {
+			order = append([]int{}, pl.force...)
+			if r.Bool() {
+				order[0], order[1] = order[1], order[0]
+			}
+			nsig = 2
+		} else if small && len(pl.privs) <= 3 && nsig == pl.m {
+			// small key sets: walk through every ordered choice of m signers as the run proceeds
+			all := sfeOrderedSubsets(len(pl.privs), pl.m)
+			order = all[(seqno+i)%len(all)]
+		}
 		wrongAt := -1
 		if bad && mode == 2 && nsig > 0 {
 			wrongAt = r.Intn(nsig)
@@ -1289,12 +1339,12 @@ func sfeGenCase(r *Rng, v2 bool) *sfeCase {
 
 func genSfe0(r *Rng, n int, w *bufio.Writer) {
 	for i := 0; i < n; i++ {
-		fmt.Fprintln(w, sfeGenCase(r, false).line())
+		fmt.Fprintln(w, sfeGenCase(r, false, i).line())
 	}
 }
 func genSfe2(r *Rng, n int, w *bufio.Writer) {
 	for i := 0; i < n; i++ {
-		fmt.Fprintln(w, sfeGenCase(r, true).line())
+		fmt.Fprintln(w, sfeGenCase(r, true, i).line())
 	}
 }
 
